@@ -182,6 +182,11 @@ class Tr:
                 return '(ECall "np.vstack" [%s])' % self.expr(e.args[0])
             if dotted(f) is not None and (dotted(f) + '()') in self.consts and not e.args and not e.keywords:
                 return '(EConst %s)' % const_value(self.consts[dotted(f) + '()'])          # a data-module function returning a literal
+            if isinstance(f, ast.Name) and f.id == 'round' and len(e.args) == 1 and not e.keywords:
+                return '(ECall "round" [%s])' % self.expr(e.args[0])
+            if isinstance(f, ast.Attribute) and isinstance(f.value, ast.Name) and f.value.id == 'self' and f.attr == 'getBinCenters' and not e.args and not e.keywords:
+                # the method reads self.nbins_actual (and nothing else of the object): handed over explicitly
+                return '(ECall "getBinCenters" [(EVar "self.nbins_actual")])'
             if isinstance(f, ast.Name) and f.id == 'sum' and len(e.args) == 1 and not e.keywords:
                 return '(ECall "sum" [%s])' % self.expr(e.args[0])
             if dotted(f) in ('aminoacids.get_KD_uversky', 'data.aminoacids.get_KD_uversky') and not e.args and not e.keywords:
@@ -472,7 +477,7 @@ def literal_dicts(path):
 
 
 FDIV = {'g_LZW', 'g_LC', 'g_CWF'}
-QDIV = {'g_linDensity', 'g_meanHydropathy', 'g_uverskyHydropathy', 'g_meanWWHydropathy', 'g_molecular_weight', 'g_FPPII_chain', 'g_fraction_disorder_promoting', 'g_FER', 'g_linHydro', 'g_charge_at_pH', 'g_SCD', 'g_sigma', 'g_deltaForm', 'g_delta', 'g_kappa', 'g_Fplus', 'g_Fminus', 'g_FCR', 'g_NCPR'}
+QDIV = {'g_wl_geometry', 'g_linDensity', 'g_meanHydropathy', 'g_uverskyHydropathy', 'g_meanWWHydropathy', 'g_molecular_weight', 'g_FPPII_chain', 'g_fraction_disorder_promoting', 'g_FER', 'g_linHydro', 'g_charge_at_pH', 'g_SCD', 'g_sigma', 'g_deltaForm', 'g_delta', 'g_kappa', 'g_Fplus', 'g_Fminus', 'g_FCR', 'g_NCPR'}
 
 FUNCS = [
     # (Coq name, file, class, function, prefixes under which the data module's names are visible there)
@@ -568,6 +573,7 @@ FUNCS = [
     ('g_CWF', 'localcider/backend/sequenceComplexity.py', 'SequenceComplexity', 'CWF', []),
     ('g_LC', 'localcider/backend/sequenceComplexity.py', 'SequenceComplexity', 'LC', []),
     ('g_wl_step', 'localcider/backend/wang_landau.py', 'WangLandauMachine', 'run_normal_WL', [], ('while-body', 'f > self.convergence')),
+    ('g_wl_geometry', 'localcider/backend/wang_landau.py', 'WangLandauMachine', '__init__', [], ('else-of', "WL_type == 'ZOOM'")),
     ('g_wl_flatcheck', 'localcider/backend/wang_landau.py', 'WangLandauMachine', '__run_flatcheck', []),
     ('g_wl_inside', 'localcider/backend/wang_landau.py', 'WangLandauMachine', 'indexInsideRelevantRegion', []),
     ('g_swapRes', 'localcider/backend/sequence.py', 'Sequence', 'swapRes', []),
@@ -590,6 +596,11 @@ def generate(repo):
                 if len(idx) != 1:
                     raise Untranslatable('statement `%s` not found exactly once' % select[1])
                 node = ast.FunctionDef(name=node.name, args=node.args, body=node.body[:idx[0] + 1], decorator_list=[])
+            elif isinstance(select, tuple) and select[0] == 'else-of':          # the else-branch of the one top-level if with the given test
+                hits = [n for n in node.body if isinstance(n, ast.If) and ' '.join(ast.unparse(n.test).split()) == select[1]]
+                if len(hits) != 1 or not hits[0].orelse:
+                    raise Untranslatable('block `if %s: ... else:` not found exactly once' % select[1])
+                node = ast.FunctionDef(name=node.name, args=node.args, body=hits[0].orelse, decorator_list=[])
             elif isinstance(select, tuple) and select[0] == 'while-body':      # the body of the one while-loop with the given test
                 hits = [n for n in ast.walk(node) if isinstance(n, ast.While) and ' '.join(ast.unparse(n.test).split()) == select[1]]
                 if len(hits) != 1 or hits[0].orelse:
